@@ -191,7 +191,7 @@ def end_to_end(tier, idx, L, allow):
 
 
 def jobs(tier, seed):
-    js = []
+    js = [Job("eg-validate", "harness.egcommon:validate_eg", tier=tier)]
     for name, order in _orders(tier):
         for allow in (True, False):
             js.append(Job("trunc/%s/%s" % (name, allow), "harness.c03:truncation",
